@@ -90,18 +90,19 @@ func (r *Recorder) BeforeParse(b []byte) {
 
 // Outcome is everything observable about the call.
 type Outcome struct {
-	Request  packet.Request
-	ReqBytes []byte
-	Resp     packet.Response
-	Err      error
-	Panic    interface{}
-	Hung     bool
-	Elapsed  time.Duration
-	Writes   [][]byte
-	Reads    []xport.ReadLog
-	Consumed int
-	Flushes  int
-	Hooks    []HookCall
+	Request   packet.Request
+	ReqBytes  []byte
+	Resp      packet.Response
+	Err       error
+	Panic     interface{}
+	Hung      bool
+	Elapsed   time.Duration
+	Writes    [][]byte
+	Reads     []xport.ReadLog
+	Consumed  int
+	Flushes   int
+	WriteSeqs []int
+	Hooks     []HookCall
 	// ParserCalls: inputs the wrapped parser saw (CustomParse), with the sequence number relative to hook calls
 	ParserCalls []HookCall
 }
@@ -133,6 +134,7 @@ func Run(sc Scenario) Outcome {
 	defer cancel()
 	script := &xport.Script{Stream: append([]byte(nil), sc.Stream...), Events: append([]xport.Event(nil), sc.Events...), WriteErr: sc.WriteErr, OnCancel: cancel}
 	seq := 0
+	script.Seq = &seq
 	var rec *Recorder
 	if sc.Hooks {
 		rec = &Recorder{seq: &seq}
@@ -224,6 +226,7 @@ func Run(sc Scenario) Outcome {
 	}
 	out.Elapsed = time.Since(start)
 	out.Writes, out.Reads, out.Consumed, out.Flushes = script.Snapshot()
+	out.WriteSeqs = append([]int(nil), script.WriteSeqs...)
 	if rec != nil {
 		out.Hooks = rec.Calls
 	}
